@@ -100,7 +100,8 @@ pub fn check_derived(g: &G, alphabet: &Alphabet, deep: bool, c: &mut Counters, f
     // ---- get_subgraph with name LISTS (repetition and order are part of a valid call)
     for &x in &alphabet.names {
         for &y in &alphabet.names {
-            for s in [vec![x, y, x], vec![y, x, x], vec![x, x]] {
+            // ... and an unknown name may stand anywhere in the list (first, in the middle, last)
+            for s in [vec![x, y, x], vec![y, x, x], vec![x, x], vec![ABSENT, x, y], vec![x, ABSENT, y], vec![x, y, ABSENT], vec![ABSENT, ABSENT, x]] {
                 let sub = g.get_subgraph(&s);
                 c.inc("derived_graphs");
                 c.inc("subgraph_lists_with_repeats");
